@@ -5,7 +5,7 @@
     roles, operand size, immediate modulo the operand width) with exactly the emitted length.
     Closed by computation over the FindEncoding table that is re-tabulated from the implementation
     on every run: ALL 8 registers of each width in BOTH positions for MOV and the six ALU operations,
-    every register with boundary immediates in the cells where the prefix decision is right, the
+    every register with every boundary immediate representable in the operand width, the
     stack and port forms, in both modes.  Memory operands: C02.  The cells left out are exactly the
     known findings (refuted below on the model). *)
 From Coq Require Import List ZArith String Bool.
@@ -30,10 +30,12 @@ Print Assumptions C01_port.
 Example C01_sweep_sizes : (Datatypes.length sweep_rr, Datatypes.length sweep_stack) = (2688%nat, 64%nat).
 Proof. vm_compute. reflexivity. Qed.
 
-(* outside the domain, on the faithful model: MOV AX,0x8000 gets a 66h prefix in 16-bit mode and MOV AX,DS encodes BX *)
-Theorem C01_imm_class_prefix_refuted : model_bytes 16 (SMnem "MOV" [ident "AX"; num 32768])%string = Some [102; 184; 0; 128]
-  /\ check_c01 (16, SMnem "MOV" [ident "AX"; num 32768], [102; 184; 0; 128])%string <> 0.
-Proof. split; vm_compute; congruence. Qed.
+(* MOV AX,0x8000 in 16-bit mode (formerly a bogus 66h prefix chosen from the size class of the immediate) is an ordinary
+   cell of sweep_ri since the Require66h fix in /repo *)
+Example C01_imm_class_cell : model_bytes 16 (SMnem "MOV" [ident "AX"; num 32768])%string = Some [184; 0; 128]
+  /\ check_c01 (16, SMnem "MOV" [ident "AX"; num 32768], [184; 0; 128])%string = 0.
+Proof. split; vm_compute; reflexivity. Qed.
+(* outside the domain, on the faithful model: MOV AX,DS encodes BX *)
 Theorem C01_mov_r16_sreg_refuted : model_bytes 16 (SMnem "MOV" [ident "AX"; ident "DS"])%string = Some [140; 219]
   /\ check_c01 (16, SMnem "MOV" [ident "AX"; ident "DS"], [140; 219])%string <> 0.
 Proof. split; vm_compute; congruence. Qed.
